@@ -112,12 +112,31 @@ def generate(ctx):
         if len(pk) == 0 or len(tr) == 0:
             continue
         cases.append(dict(kind='signal', sig=proto.arr2hex(s['sig']), peaks=[int(x) for x in pk], troughs=[int(x) for x in tr], family=s['family']))
+    # DECIMAL grids (recordings stored with one or two decimals): flanks with a sample EXACTLY on the half height, chosen so that the float half height
+    # (a + b) / 2 is the exact one (no rounding) while other ways of writing the same formula round differently - no float tie can excuse a disagreement
+    from fractions import Fraction as Fr
+    made = 0
+    for i in range(ctx.scale(4000, 40000)):
+        if made >= ctx.scale(300, 3000): break
+        q = int(rng.choice([10, 100]))
+        a, b = float(rng.integers(-60, 61)) / q, float(rng.integers(-60, 61)) / q
+        if a == b: continue
+        h = (a + b) / 2.0
+        if Fr(h) != (Fr(a) + Fr(b)) / 2 or a + (b - a) / 2.0 == h: continue
+        up = a < b
+        lo, hi = min(a, b), max(a, b)
+        n_in = int(rng.integers(1, 5))
+        inner = sorted(float(lo + (hi - lo) * v) for v in rng.random(n_in))
+        inner[int(rng.integers(n_in))] = h
+        inner = sorted(inner) if up else sorted(inner, reverse=True)
+        seg = [a] + inner + [b]
+        cases.append(dict(kind='seqf', sig=proto.arr2hex(np.array(seg)), peaks=[len(seg) - 1] if up else [0], troughs=[0] if up else [len(seg) - 1])); made += 1
     return cases
 
 def evaluate(ctx, cases):
     reqs, sigs = [], []
     for c in cases:
-        sig = proto.hex2arr(c['sig']) if c['kind'] == 'signal' else np.array(c['sig'], dtype=float)
+        sig = proto.hex2arr(c['sig']) if c['kind'] in ('signal', 'seqf') else np.array(c['sig'], dtype=float)
         if c.get('dt'):
             sig = (np.array(c['sig']) * INT_MUL[c['dt']]).astype(c['dt'])
         if c.get('scale'):
